@@ -62,6 +62,8 @@ CLAIMED["C06"]["text"] += (" Also deductive (DESIGN 11.12): the view accessors o
 CLAIMED["C05"]["text"] += (" The attribute setters of both classes carry their documented effect as a postcondition with loop invariants (DESIGN 11.12). merge_duplicate_edges' rename / merge rules are covered by a bounded native oracle "
                            "(transcription of the docstring), labelled bounded.")
 CLAIMED["C03"]["text"] += (" A bounded native oracle (short histories over all five bulk formats, labelled bounded, DESIGN 11.12) stands beside the proof for inputs whose obligations are refuted only under abstraction.")
+CLAIMED["C14"]["text"] += (" is_connected is under contract as well (true iff the first node reaches every node), on top of _plain_bfs's contract, the definitional rules of reach and one assumed fact about finite cardinalities (DESIGN 11.12).")
+CLAIMED["C10"]["text"] += (" to_hyperedge_dict is under contract through the verified EdgeView.members(dtype=dict) accessor contract.")
 NA_REASON = {
  "C20": "no contract within reach: the observables are matplotlib collections and networkx float layouts (external libraries, floating point); see DESIGN 7",
 }
